@@ -555,7 +555,7 @@ func (c *c20Check) Minimise(v Viol) Viol {
 	}
 	best := v
 	budget := 40
-	deadline := time.Now().Add(4 * time.Minute) // long runs (property sweeps) get fewer attempts
+	deadline := time.Now().Add(90 * time.Second) // long runs (property sweeps) get fewer attempts
 	holds := func(cand []map[string]uint32) bool {
 		if budget <= 0 || time.Now().After(deadline) {
 			budget = 0
